@@ -501,6 +501,10 @@ class Node:
                     return {self.dec(k): self.dec(v) for k, v in x[1]}
                 if tag == "none":
                     return None
+                if tag == "np":
+                    import numpy
+
+                    return getattr(numpy, x[1])(x[2])
             return [self.dec(y) for y in x]
         if isinstance(x, dict):
             return {k: self.dec(v) for k, v in x.items()}
